@@ -117,6 +117,21 @@ def gen_halo_raw(rng, hid):
     return raw
 
 
+LC_DTYPES = {'N': 'u4', 'N_interp': 'u4', 'npstartA': 'u8', 'npoutA': 'u4', 'index_halo': 'i8', 'origin': 'i1',
+             'pos_avg': ('f4', 3), 'pos_interp': ('f4', 3), 'vel_avg': ('f4', 3), 'vel_interp': ('f4', 3),
+             'redshift_interp': 'f4'}
+
+
+def add_lc_fields(rng, raw):
+    f = lambda lo, hi: float(np.float32(rng.uniform(lo, hi)))
+    avail = rng.random() < 0.6
+    raw.update({'N_interp': rng.randrange(35, 5000), 'index_halo': rng.randrange(0, 10 ** 9), 'origin': rng.randrange(0, 9),
+                'pos_avg': [f(-990, 990) for _ in range(3)] if avail else [0.0, 0.0, 0.0],
+                'pos_interp': [f(-990, 990) for _ in range(3)], 'vel_avg': [f(-900, 900) for _ in range(3)],
+                'vel_interp': [f(-900, 900) for _ in range(3)], 'redshift_interp': f(0.1, 2.5)})
+    return raw
+
+
 RAW_DTYPES = {
     'id': 'u8', 'npstartA': 'u8', 'npstartB': 'u8', 'npoutA': 'u4', 'npoutB': 'u4', 'ntaggedA': 'u4', 'ntaggedB': 'u4',
     'N': 'u4', 'L2_N': ('u4', 5), 'L0_N': 'u4', 'SO_central_particle': ('f4', 3), 'SO_central_density': 'f4',
@@ -139,13 +154,13 @@ CLEAN_DTYPES = {'npstartA_merge': 'i8', 'npstartB_merge': 'i8', 'npoutA_merge': 
                 'haloindex_mainprog': 'i8', 'v_L2com_mainprog': ('f4', 3)}
 
 
-def gen_world(rng, max_slabs=4, max_halos=6, max_parts=4, want_clean=None):
+def gen_world(rng, max_slabs=4, max_halos=6, max_parts=4, want_clean=None, lc=False):
     box = rng.choice([50.0, 500.0, 2000.0, 1185.0, 7.5])
     vz = rng.choice([777.0, 123.0, 3200.0, 9001.5, 55.5])
     if vz == box:
         vz += 1.0
-    nslab = rng.randrange(1, max_slabs + 1)
-    inds = sorted(rng.sample(range(0, 40), nslab))
+    nslab = 1 if lc else rng.randrange(1, max_slabs + 1)
+    inds = [0] if lc else sorted(rng.sample(range(0, 40), nslab))
     T = rng.randrange(1, 4)
     header = {'BoxSize': box, 'VelZSpace_to_kms': vz, 'ppd': float(rng.choice([64, 1000, 6912])),
               'ParticleMassHMsun': 2.1e9, 'H0': 67.36, 'SimName': 'SimWorld', 'Redshift': 0.5,
@@ -164,7 +179,7 @@ def gen_world(rng, max_slabs=4, max_halos=6, max_parts=4, want_clean=None):
         halos = []
         for _ in range(rng.randrange(0, max_halos + 1)):
             hid[0] += rng.randrange(1, 50)
-            h = {'raw': gen_halo_raw(rng, hid[0]),
+            h = {'raw': add_lc_fields(rng, gen_halo_raw(rng, hid[0])) if lc else gen_halo_raw(rng, hid[0]),
                  'A': parts(rng.choice([0, 0, 1, 2, rng.randrange(0, max_parts + 1)])),
                  'B': parts(rng.choice([0, 1, rng.randrange(0, max_parts + 1)])),
                  'gapA': parts(rng.randrange(0, 4)), 'gapB': parts(rng.randrange(0, 4)),
@@ -187,8 +202,11 @@ def gen_world(rng, max_slabs=4, max_halos=6, max_parts=4, want_clean=None):
             }
             halos.append(h)
         slabs.append({'index': ind, 'halos': halos, 'tailA': parts(rng.randrange(0, 3)), 'tailB': parts(rng.randrange(0, 3))})
+    if lc:
+        cleaned = False
+        header['LightConeOrigins'] = [-990.0, -990.0, -990.0, -990.0, -990.0, -2990.0, -990.0, -2990.0, -990.0]
     return {'header': header, 'slabs': slabs, 'cleaned': cleaned, 'T': T, 'layout': rng.randrange(1, 5),
-            'TimeSliceRedshiftsPrev': [0.575 + 0.1 * k for k in range(T)]}
+            'TimeSliceRedshiftsPrev': [0.575 + 0.1 * k for k in range(T)], 'lc': bool(lc)}
 
 
 # ------------------------------------------------------------ layout -------
@@ -301,6 +319,8 @@ def write_world(world, root, knobs):
     boot.register_asdf_extension()
     gd, chi, crv, flat = clean_dirs(world, root)
     written = []
+    if world.get('lc'):
+        return write_lc_world(world, root, knobs)
 
     def put(path, tree):
         os.makedirs(os.path.dirname(path), exist_ok=True)
@@ -335,6 +355,45 @@ def write_world(world, root, knobs):
                 with open(os.path.join(d, name), 'w') as fh:
                     fh.write('junk\n')
     return gd, written
+
+
+def lc_particle(s):
+    """Light-cone subsample files store unpacked columns; the serial is encoded in each."""
+    return [float(s), float(s) + 0.25, float(s) + 0.5], [0.5 * s, -0.5 * s, 0.125 * s], int(s)
+
+
+def write_lc_world(world, root, knobs):
+    import asdf
+    gd = os.path.join(root, 'halo_light_cones', world['header']['SimName'], 'z0.500')
+    os.makedirs(gd)
+    slab = world['slabs'][0]
+    lay = slab_layout(slab)['A']
+    hs = slab['halos']
+    cols = {}
+    for name, dt in list(RAW_DTYPES.items()) + list(LC_DTYPES.items()):
+        if name in LC_DTYPES or 'L2' in name:
+            if name == 'npstartA':
+                vals = [lay['idx'][i][0] for i in range(len(hs))]
+            elif name == 'npoutA':
+                vals = [lay['idx'][i][1] for i in range(len(hs))]
+            else:
+                vals = [h['raw'][name] for h in hs]
+            cols[name] = _arr(vals, LC_DTYPES.get(name, dt))
+    kw = {}
+    if knobs.get('compression') == 'blsc':
+        kw = {'all_array_compression': 'blsc', 'compression_kwargs': {'compression_block_size': knobs.get('cbs', 1 << 22)}}
+    p1 = os.path.join(gd, 'lc_halo_info.asdf')
+    asdf.AsdfFile({'data': cols, 'header': file_header(world)}).write_to(p1, **kw)
+    recs = lay['recs']
+    pos = np.array([lc_particle(s)[0] for s in recs], dtype=np.float32).reshape(-1, 3)
+    vel = np.array([lc_particle(s)[1] for s in recs], dtype=np.float32).reshape(-1, 3)
+    pid = np.array([lc_particle(s)[2] for s in recs], dtype=np.int64)
+    p2 = os.path.join(gd, 'lc_pid_rv.asdf')
+    asdf.AsdfFile({'data': {'pos': pos, 'vel': vel, 'pid': pid}, 'header': file_header(world)}).write_to(p2, **kw)
+    if knobs.get('junk'):
+        with open(os.path.join(gd, 'checksums.crc32'), 'w') as fh:
+            fh.write('junk\n')
+    return gd, [p1, p2]
 
 
 # ------------------------------------------------------------ oracle -------
@@ -382,6 +441,14 @@ def expected_column(world, slab_indices, name, convert_units=True, cleaned=False
     import re
     if name == 'N' and cleaned:
         return np.array([h['clean']['N_total'] for h in hs], dtype=np.float64), 'exact'
+    if world.get('lc'):
+        if name in ('N_interp', 'index_halo', 'pos_avg', 'vel_avg', 'redshift_interp'):
+            return rawf(name), 'exact'
+        if name == 'origin':
+            return rawf(name) % 3, 'exact'
+        if name in ('pos_interp', 'vel_interp'):
+            avail = np.any(rawf('pos_avg') != 0, axis=1)
+            return np.where(avail[:, None], rawf(name.replace('interp', 'avg')), rawf(name)), 'exact'
     if name in ('id', 'ntaggedA', 'ntaggedB', 'N', 'L2_N', 'L0_N', 'SO_central_density', 'SO_L2max_central_density'):
         return rawf(name), 'exact'
     if name in CLEAN_DTYPES and not name.startswith('np'):
